@@ -54,6 +54,8 @@ def _reachable_mutables(st):
     def add(o, d):
         if isinstance(o, Mutable):
             seen[id(o)] = o
+        elif isinstance(o, P.Proxy):
+            pass
         elif d > 0:
             if isinstance(o, (list, tuple)):
                 for x in o:
